@@ -41,6 +41,22 @@ func init() {
 			},
 		}
 		rs.runDiff(spec)
+		// second half of the statement: ordinary closures INSIDE generator bodies (oracle: the reference rendering,
+		// where the closure text is compiled natively by Go)
+		var inGen []*Program
+		for i, sh := range closureInGeneratorShapes {
+			inGen = append(inGen, mkShapeProgram("Z"+itoa(100+i), sh))
+		}
+		sp := scopingProfile()
+		sp.w["closure"] = 16
+		sp.w["callstmt"] = 10
+		rs.runDiff(&diffSpec{
+			profiles: []*profile{sp}, batchSize: 30, batches: rs.vol(6, 150),
+			fixed: inGen,
+			nontrivial: func(p *Program, r *Record) bool {
+				return p.hasTag("closure") || strings.HasPrefix(p.Profile, "shape:")
+			},
+		})
 	}}
 
 	// ---- C07 --------------------------------------------------------------------------------------
